@@ -164,8 +164,7 @@ def run(ctx):
                 (is_call(x, name="signing_commitment") and x[2][0] == ("arg", 2) and x[2][1] == ("arg", 1))
             ok_r = mentions(rshare, own) and mentions(rshare, some(call("get", fld(arg(3), "0"), arg(1))))
             lam = a[5]
-            ok_l = lam[0] == "ok" and is_call(lam[1], name="derive_interpolating_value") and \
-                lam[1][2][0] == ("arg", 1) and lam[1][2][1] == ("arg", 2)
+            ok_l = lam[0] == "ok" and lagrange_of(arg(1), arg(2))(lam[1])
             return a[1] == ("arg", 5) and a[2] == ("arg", 1) and a[4] == ("arg", 6) and a[6] == ("arg", 7) \
                 and ok_r and ok_l
         refusal(ctx, vp, "SEP", "share-check-gates-Ok", [("verify_share", succ_fact(vs))], ok_sinks(vp),
